@@ -747,6 +747,14 @@ mod inner {
         }
         let output_osc = str_to_oscode(output_key)
             .ok_or_else(|| anyhow_expr!(output_expr, "unknown key name"))?;
+        // Zippy output is typed directly, not through the filter that keeps the reserved no-op
+        // codes away from the OS.
+        if (OsCode::KEY_676.as_u16()..=OsCode::KEY_685.as_u16()).contains(&output_osc.as_u16()) {
+            bail_expr!(
+                output_expr,
+                "nop0-nop9 are never sent to the OS and cannot be used as zippy output."
+            );
+        }
         let output = match output_mods.len() {
             0 => match is_noerase {
                 false => ZchOutput::Lowercase(output_osc),
